@@ -19,12 +19,86 @@ BOUNDS = C7.BOUNDS
 OUTSIDE = C7.OUTSIDE
 
 
+FP_CHECK = "c08.fp.steep_event_bracketed_by_adjacent_floats_is_reported"
+
+
 def instances(tier):
     hs = [i for i in C7.handle_instances(tier, "C08") if i["mode"] == "exact"]
-    return hs + C7.integrate_instances(tier, "C08")
+    out = hs + C7.integrate_instances(tier, "C08")
+    # bit-precise end of the chain: QF_FP witness (C14's lemma) -> REAL handle_events + brentsrootvec in float64
+    q = tier == "quick"
+    for dt in (("float16", "float32") if q else ("float16", "float32", "float64")):
+        t = 60 if q else 700
+        for lo, hi in ((0.5, 2.0), (4.0, 8.0), (64.0, 128.0), (-2.0, -0.5), (-8.0, -4.0), (-128.0, -64.0)):
+            out.append(dict(id="fp-event-%s-x%g-%g" % (dt, lo, hi), kind="fp", dtype=dt, timeout_s=t, xlo=lo, xhi=hi,
+                            budget=dict(wall_s=t + 30, max_paths=4)))
+    return out
+
+
+def _fp_handle_events(s, d, x0, xlo, xhi):
+    """REAL handle_events (float64) on the time event g(t) = s*t - d whose sign change is bracketed by the adjacent floats x0 < x1;
+    returns a record with missed=True iff some direction of integration does not report it"""
+    import warnings
+    import numpy as np
+    import desolver.differential_system as ds
+    x0 = np.float64(x0)
+    x1 = np.nextafter(x0, np.float64(np.inf))
+    s, d = np.float64(s), np.float64(d)
+
+    def g(t, y, **kw):
+        return s * t - d
+
+    class Flat:
+        def __call__(self, t):
+            return np.zeros(1)
+
+        def grad(self, t):
+            return np.zeros(1)
+    out = dict(s=float(s), d=float(d), x0=float(x0), x1=float(x1), g_x0=float(g(x0, None)), g_x1=float(g(x1, None)), runs=[])
+    missed = False
+    for (tp, tn) in ((xlo, xhi), (xhi, xlo)):
+        with warnings.catch_warnings():
+            warnings.simplefilter("ignore")
+            act, roots, term, evs = ds.handle_events((Flat(), np.float64(tp), np.float64(tn)), [g], {}, np.array([0]), np.array([False]), ([False],))
+        ok = len(act) == 1 and float(np.ravel(roots)[0]) in (float(x0), float(x1))
+        out["runs"].append(dict(t_prev=tp, t_next=tn, reported=[float(r) for r in np.ravel(roots)]))
+        missed = missed or not ok
+    out["missed"] = missed
+    return out
+
+
+def _fp(c, inst):
+    from . import c14_brent as C14
+    from srx import core
+    xlo, xhi = inst["xlo"], inst["xhi"]
+    if c.symbolic:
+        status, wit = C14._fp_query(inst["dtype"], inst.get("timeout_s", 60), xlo, xhi)
+        c.note("qf_fp_result", status)
+        if status == "unknown":
+            raise core.BudgetHit("qf_fp_unknown")
+        if status == "unsat":
+            # no adjacent pair has both residuals above tol: the detector's acceptance by residual covers the format
+            c.check(FP_CHECK, True)
+            return
+        for k, v in wit.items():
+            c.assume(c.eq(c.real(k), v))
+        s, x0 = float(wit["s"]), float(wit["x0"])
+    else:
+        s, x0 = float(c.real("s")), float(c.real("x0"))
+        c.real("d")
+    t = C14._fp_transport_float64(s, x0, xlo=xlo, xhi=xhi)
+    if t is None:
+        c.note("float64_instance", "none found near the witness")
+        c.check(FP_CHECK, True)
+        return
+    rec = _fp_handle_events(*t, xlo, xhi)
+    c.note("real_handle_events_float64", rec)
+    c.check(FP_CHECK, not rec["missed"], info=dict(dtype=inst["dtype"], xrange=[xlo, xhi]))
 
 
 def scenario(c, inst):
+    if inst["kind"] == "fp":
+        return _fp(c, inst)
     if inst["kind"] == "handle":
         return C7.handle_scenario(c, inst, {"C08"})
     if inst["kind"] == "e2e":
